@@ -639,6 +639,7 @@ public:
         else if (p == "C18") run_c18(cs, r);
         else {
             gen::GGraph gg = gen::from_json(cs["graph"]);
+            sim::LayoutScope scope;   // edge nodes from the arena: pointer order independent of heap history
             if (p == "C12") { if (gg.wtype == "int") run_c12<GraphI>(gg, r); else run_c12<GraphD>(gg, r); }
             else if (p == "C13") run_c13(gg, r);
             else if (p == "C14") { if (gg.wtype == "int") run_c14<GraphI>(gg, r); else run_c14<GraphD>(gg, r); }
